@@ -627,20 +627,20 @@ Section Sound.
       - (* Include *) injection A as <-.
         pose proof (REF _ eq_refl) as Hr. cbn in Hr. unfold has_key in Hr.
         destruct (assoc_get (w_templates wd) n) as [t2|] eqn:Et; [|discriminate].
-        pose proof (world_tpl _ _ Et) as HT2. destruct (tpl_parts _ HT2) as (HG2 & _ & _).
+        pose proof (world_tpl _ _ Et) as HT2. destruct (tpl_parts _ HT2) as (_ & HG2 & _).
         destruct (caps s) as [|c ct] eqn:Ec.
-        + match goal with |- context[run W wr wd f t2 ae depth (t_chunk t2) 0 ?i ?oo] =>
+        + match goal with |- context[run W wr wd f t2 ae depth (t_root_chunk t2) 0 ?i ?oo] =>
             assert (Hbg : blocks_good i) by (split; [constructor|exact I]);
-            pose proof (run_chunk t2 ae depth (t_chunk t2) i oo HT2 HG2 Hbg) as P;
-            destruct (run W wr wd f t2 ae depth (t_chunk t2) 0 i oo) as [s' o1|e|] end;
+            pose proof (run_chunk t2 ae depth (t_root_chunk t2) i oo HT2 HG2 Hbg) as P;
+            destruct (run W wr wd f t2 ae depth (t_root_chunk t2) 0 i oo) as [s' o1|e|] end;
           [|exact P|exact I].
           destruct P as (_ & _ & _ & K).
           eapply post_trans; [eapply GO; [left; reflexivity|split; [exact HS|split; [exact HL|cbn [a_caps]; rewrite Ec; exact HC]]|exact HB]
                              |reflexivity|reflexivity|exact K].
-        + match goal with |- context[run W wr wd f t2 ae depth (t_chunk t2) 0 ?i ?oo] =>
+        + match goal with |- context[run W wr wd f t2 ae depth (t_root_chunk t2) 0 ?i ?oo] =>
             assert (Hbg : blocks_good i) by (split; [constructor|exact I]);
-            pose proof (run_chunk t2 ae depth (t_chunk t2) i oo HT2 HG2 Hbg) as P;
-            destruct (run W wr wd f t2 ae depth (t_chunk t2) 0 i oo) as [s' o1|e|] end;
+            pose proof (run_chunk t2 ae depth (t_root_chunk t2) i oo HT2 HG2 Hbg) as P;
+            destruct (run W wr wd f t2 ae depth (t_root_chunk t2) 0 i oo) as [s' o1|e|] end;
           [|exact P|exact I].
           destruct P as (_ & _ & _ & K). destruct o1 as [w1|c1]; [destruct K|].
           fin GO ltac:(left; reflexivity).
